@@ -328,6 +328,10 @@ const DIRECTED: &[(&str, &str, &str)] = &[
     ("scope_read_through_same_name", "(module (expression_statement (assignment left: (identifier) @x))) @m { let @m.a = @x let @m.a.a = 1 node n attr (n) v = @x.a }", "x = y\n"),
     ("scope_is_string", "(module) @m { let s = \"text\" let s.a = 1 }", "pass\n"),
     ("scoped_definition_while_forcing", "(identifier) @x { let @x.a = 1 }\n(identifier) @x { node n attr (n) v = @x.a let (first-of @x.a).b = 2 }", "x = y\n"),
+    ("free_variable_in_shorthand_body", "attribute sh = v => label = (format \"{}{}\" prefix v)\n(identifier) @x { let prefix = \"p:\" node n attr (n) sh = (source-text @x) }", "x = y\n"),
+    ("free_loop_variable_in_shorthand_body", "attribute sh = v => label = [v, i]\n(identifier) @x { node n for i in [1, 2] { attr (n) sh = i } }", "x\n"),
+    ("calls_without_arguments_inside_calls", "(module) { node n attr (n) v = (plus 1 (plus)), w = (concat [1] (concat)), x = (and #true (or)), y = (format \"{}{}\" 1 (plus)) let zero = (plus) attr (n) z = (plus 41 1 zero) }", "pass\n"),
+    ("empty_list_rendered", "(module (_)* @stmts) @m { node n attr (n) v = (format \"<{}>\" @stmts), w = (join [[], [1]]) print @stmts attr (@stmts) k = 1 }", ""),
     ("plus_on_top_of_star_quantifier", "(identifier)*+ @xs { node n attr (n) x = @xs }", "x = y\n"),
 ];
 
